@@ -339,10 +339,10 @@ def check_borderline(cfg, exact_nov, n_pre):
         raise Borderline()
 
 
-def compare(case, driver):
+def compare(case, driver, res=None):
     """Returns None when implementation and model agree on every observable, else a description."""
     cfg = case["cfg"]
-    res = run_impl(case)
+    res = res or run_impl(case)
     trace = res["trace"]
     mops, owner = model_ops(trace)
     mout = driver.call("C14", [cfg_sx(cfg) if cfg["cap0"] >= 0 else [cfg["k"], thr_exact(cfg), bool(cfg["lc"]), 0], mops])
@@ -449,10 +449,10 @@ def sqrt_correctly_rounded(d, s):
     return (a < 0 or a * a <= s) and s <= b * b
 
 
-def oracle(case):
+def oracle(case, res=None):
     """Returns (message, tags) for the first clause of C14 that the implementation's own outputs violate, else None."""
     cfg = case["cfg"]
-    res = run_impl(case)
+    res = res or run_impl(case)
     if res["init"] != [0]:
         return ("constructor raised for initial_capacity %r" % cfg["cap0"], {"kind": "constructor"}) if cfg["cap0"] >= 1 else None
     thr = thr_exact(cfg)
@@ -662,12 +662,17 @@ def gen_case(rng, tier, force=None):
             cands = []
             # several competitors for one neighbour: cluster part of the batch around one point
             centre = gen_point(rng, cfg, pool) if rng.random() < 0.5 else None
+            cl_objs = []
             for _ in range(nb):
+                o = gen_obj(rng, cfg)
                 if centre is not None and rng.random() < 0.5:
                     m = list(centre) if rng.random() < 0.5 else gen_point(rng, cfg, [centre])
+                    if cl_objs and rng.random() < 0.45:
+                        o = rng.choice(cl_objs)                      # exact objective tie between competitors
+                    cl_objs.append(o)
                 else:
                     m = gen_point(rng, cfg, pool)
-                cands.append([next_id, gen_obj(rng, cfg), m])
+                cands.append([next_id, o, m])
                 next_id += 1
             for c in cands:
                 pool.append(c[2])
@@ -714,7 +719,7 @@ def gen_malformed(rng):
 def features(case, res=None):
     """measured classes of a case (from the implementation run)"""
     res = res or run_impl(case)
-    f = {"doublings": 0, "mixed_batch": False, "replaced": False, "multi_competitors": False, "clear_nonempty": False,
+    f = {"doublings": 0, "mixed_batch": False, "replaced": False, "multi_competitors": False, "tied_winners": False, "clear_nonempty": False,
          "dup_admitted": False, "eq_threshold": False, "lc_tie": False, "max_len": 0}
     cfg = case["cfg"]
     thr = thr_exact(cfg)
@@ -733,6 +738,12 @@ def features(case, res=None):
                 near = [c[4] for c, s in zip(ent["cands"], st) if s != 2]
                 if len(near) != len(set(near)):
                     f["multi_competitors"] = True
+                win = [(c[4], c[1]) for c, s in zip(ent["cands"], st) if s == 1]
+                best = {}
+                for nr, o in win:
+                    best[nr] = max(best.get(nr, o), o)
+                if any(sum(1 for nr2, o2 in win if nr2 == nr and o2 == o) > 1 for nr, o in best.items()):
+                    f["tied_winners"] = True
                 for c, s in zip(ent["cands"], st):
                     ex, kk, below, tie, need = knn_info(cfg["k"], c[3])
                     if ex == thr:
